@@ -294,9 +294,16 @@ func (jenny RawTypes) generateFromJSONMethod(context languages.Context, object a
 
 	buffer.WriteString(fmt.Sprintf("        args: dict[str, %s.Any] = {}\n", typingPkg))
 	var assignments []string
+	// optional properties that the constructor sets (constants, defaults): absent from
+	// the document, they have to be absent from the loaded object too.
+	var setByConstructor []ast.StructField
 	for _, field := range object.Type.AsStruct().Fields {
 		value := fmt.Sprintf(`data["%s"]`, field.Name)
 		setup := ""
+
+		if !field.Required && (field.Type.IsConcreteScalar() || field.Type.IsConstantRef() || field.Type.Default != nil) {
+			setByConstructor = append(setByConstructor, field)
+		}
 
 		// No need to unmarshal constant scalar fields since they're set in
 		// the object's constructor
@@ -333,7 +340,17 @@ func (jenny RawTypes) generateFromJSONMethod(context languages.Context, object a
 		buffer.WriteString("        \n\n")
 	}
 
-	buffer.WriteString("        return cls(**args)")
+	if len(setByConstructor) == 0 {
+		buffer.WriteString("        return cls(**args)")
+
+		return buffer.String(), nil
+	}
+
+	buffer.WriteString("        loaded = cls(**args)\n")
+	for _, field := range setByConstructor {
+		buffer.WriteString(fmt.Sprintf("        if \"%s\" not in data:\n            loaded.%s = None  # type: ignore[assignment]\n", field.Name, formatIdentifier(field.Name)))
+	}
+	buffer.WriteString("\n        return loaded")
 
 	return buffer.String(), nil
 }
